@@ -1115,51 +1115,73 @@ func main() {
 	defer os.RemoveAll(scratch)
 	var mu sync.Mutex
 
+	par := 6
+	if v := atoi(a.Extra["par"]); v > 0 {
+		par = v
+	}
 	if a.Extra["stdin"] != "" {
+		// recorded scripts are independent of each other: run them side by side like the generated ones
 		sc := bufio.NewScanner(os.Stdin)
 		sc.Buffer(make([]byte, 1<<20), 1<<24)
 		k := 0
+		var wg sync.WaitGroup
+		sem := make(chan struct{}, par)
+		launch := func(f func()) {
+			wg.Add(1)
+			sem <- struct{}{}
+			go func() {
+				defer wg.Done()
+				defer func() { <-sem }()
+				f()
+			}()
+		}
 		for sc.Scan() {
 			f := strings.Fields(sc.Text())
 			if len(f) == 0 || strings.HasPrefix(f[0], "#") {
 				continue
 			}
 			if f[0] != "C17" {
+				mu.Lock()
 				out.Line("# skipped malformed-input")
+				mu.Unlock()
 				continue
 			}
 			s, hd, ok := parseScript(f[1:])
 			if !ok {
+				mu.Lock()
 				out.Line("# skipped malformed-input")
+				mu.Unlock()
 				continue
 			}
 			k++
-			if strings.HasPrefix(hd, "k") {
+			tag := fmt.Sprintf("in%d", k)
+			switch {
+			case strings.HasPrefix(hd, "k"):
 				if suite == "cluster" {
-					runClusterScript(out, &mu, scratch, fmt.Sprintf("in%d", k), s, strings.HasSuffix(hd, "rp=1"))
+					repin := strings.HasSuffix(hd, "rp=1")
+					launch(func() { runClusterScript(out, &mu, scratch, tag, s, repin) })
 				}
-				continue
-			}
-			if strings.HasPrefix(hd, "f") {
+			case strings.HasPrefix(hd, "f"):
 				if suite == "fault" {
-					runFaultScript(out, &mu, scratch, fmt.Sprintf("in%d", k), s)
+					launch(func() { runFaultScript(out, &mu, scratch, tag, s) })
 				}
-				continue
-			}
-			if suite == "consensus" {
-				runConsScript(out, &mu, scratch, fmt.Sprintf("in%d", k), s)
+			case strings.HasPrefix(hd, "x"):
+				if suite == "conc" {
+					launch(func() { runConcScript(out, &mu, scratch, tag, s) })
+				}
+			default:
+				if suite == "consensus" {
+					launch(func() { runConsScript(out, &mu, scratch, tag, s) })
+				}
 			}
 		}
+		wg.Wait()
 		return
 	}
 
 	n := a.N
 	if n < 0 {
 		n = 30
-	}
-	par := 6
-	if v := atoi(a.Extra["par"]); v > 0 {
-		par = v
 	}
 	root := common.NewRng(common.Seed())
 	var wg sync.WaitGroup
@@ -1177,6 +1199,8 @@ func main() {
 			if suite == "cluster" {
 				s, repin := genClusterScript(r, a.Tier)
 				runClusterScript(out, &mu, scratch, fmt.Sprintf("s%d", k), s, repin)
+			} else if suite == "conc" {
+				runConcScript(out, &mu, scratch, fmt.Sprintf("s%d", k), genConcScript(r, k, a.Tier))
 			} else if suite == "fault" {
 				runFaultScript(out, &mu, scratch, fmt.Sprintf("s%d", k), genFaultScript(r, k, a.Tier))
 			} else {
